@@ -293,6 +293,21 @@ def job_reuse():
     return n, viol
 
 
+CONCURRENT = [
+    ('define f with x begin return {x * 2} end assign v 3 print [f v] print v',
+     'define f with x begin return {x + 100} end assign v 50 print [f v] print v'),
+    ('define m 5 define n "five" print m print n print {m + 1}', 'define m 9 define n "nine" print m print n print {m * 2}'),
+    ('repeat in group "g" as l begin on l end', 'repeat location as l with h from 10 to 20 begin print l print h end'),
+    ('assign i 0 repeat while {i < 2} begin assign i {i + 1} print i end',
+     'repeat with i from 10 to 9 begin if {i == 9} break print i end print i'),
+    ('define tp 12:00 time at tp or 13:30 on "a" time at tp on "a"', 'time at 1*:30 on "a" time 2 off "a"'),
+    ('hue 5 set "m" row 0 get "m" print hue', 'hue 77 set "a" get "a" print hue print brightness'),
+    ('assign x 7 printf "{} {x} {hue}" 5 println x', 'assign x 70 hue 200 printf "{x}:{}" {x / 7} println hue'),
+    ('units rgb red 10 green 20 blue 30 set "s" zone 1 2 units logical print hue',
+     'units raw hue 100 duration 1500 time 250 set "s" zone 5 units logical print duration print time'),
+]
+
+
 def run(tier, seed):
     rep = Report()
     world.World(world.POP_MIXED)          # injection bindings for the parent process
@@ -330,19 +345,32 @@ def run(tier, seed):
     for kind, pair, detail in jviol:
         rep.violation(kind, '%s: first %r then %r: %s' % (kind, pair[0], pair[1], detail),
                       {'first_job': pair[0], 'second_job': pair[1], 'detail': detail})
+    # (e) two jobs at the same time: nothing of one job shows in the other
+    from . import concur
+    cpairs = [(world.POP_MIXED, a, b, 1 if tier == 'quick' else 2) for a, b in CONCURRENT]
+    ctasks = concur.split(cpairs, 4 if tier == 'quick' else 8)
+    cres = par.run_tasks(concur.pair_task, ctasks)
+    cexec = sum(r['execs'] for r in cres)
+    assert cexec > 20 * len(cpairs)
+    for task, r in zip(ctasks, cres):
+        for kind, (cnt, choices, detail, texts) in r['viol'].items():
+            rep.violation(kind, '%s (%d schedules): %s; jobs %r' % (kind, cnt, detail, texts),
+                          {'pair': [list(t) for t in texts], 'choices': choices, 'detail': detail, 'schedules': cnt})
     tot = lambda k: sum(r[k] for r in res)
     traces = set()
     for r in res:
         traces.update(r['traces'])
     rep.coverage = {
         'states': cstats['states'] + tot('steps'),
-        'transitions': cstats['transitions'] + tot('runs') + 2 * npairs,
-        'traces_validated_against_impl': cstats['transitions'] + tot('runs') + 2 * npairs,
-        'evaluations': cstats['transitions'] + tot('runs') + 2 * npairs,
+        'transitions': cstats['transitions'] + tot('runs') + 2 * npairs + cexec,
+        'traces_validated_against_impl': cstats['transitions'] + tot('runs') + 2 * npairs + cexec,
+        'evaluations': cstats['transitions'] + tot('runs') + 2 * npairs + cexec,
         'distinct_nontrivial': len(traces),
         'rule': '(a) BFS over compile histories on one Parser (canonical parser state de-duplicated, depth cap %d); '
                 '(b) for each program: 2 complete runs + for every instruction index k a stopped run and a complete run; '
-                '(c) every ordered pair of %d jobs.  distinct_nontrivial = distinct complete traces in (b)' % (depth, len(JOBS)),
+                '(c) every ordered pair of %d jobs; (e) %d pairs of jobs on two controlled threads, every schedule with <=%d '
+                'preemptions at line granularity, each job compared with its solo run.  distinct_nontrivial = distinct '
+                'complete traces in (b)' % (depth, len(JOBS), len(CONCURRENT), 1 if tier == 'quick' else 2),
         'exhaustive': True,
         'compile_history_states': cstats['states'],
         'compile_history_transitions': cstats['transitions'],
@@ -352,6 +380,8 @@ def run(tier, seed):
         'runs': tot('runs'),
         'stop_points_explored': tot('steps'),
         'job_pairs': npairs,
+        'concurrent_job_pairs': len(CONCURRENT),
+        'concurrent_schedules': cexec,
         'samples': [[TEXTS[8], TEXTS[0]], 'stop at every k of: repeat with i0 from 1 to 2 if { i0 == 1 } print 1', JOBS[3]],
     }
     rep.assumptions = ['device state is reset between the jobs of a pair (lights legitimately remember their colour); '
@@ -364,6 +394,9 @@ def replay(path):
     v = json.load(open(path))
     wit = v['witness']
     print('recorded:', v['sig'], v['what'][:300])
+    if 'pair' in wit:
+        from . import concur
+        return concur.replay(world.POP_MIXED, wit['pair'], wit['choices'])
     if 'history' in wit:
         p = Parser()
         for t in wit['history']:
